@@ -343,6 +343,11 @@ def check_C10(tier, seed):
     for be, sh, n in cfgs:
         exe = world_exe('masked', be, sh, 'rel')
         o.add(D.run_batch(exe, n, tier, seed, label='masked@%s-%d%d%d' % (be, *sh), crash_prop='C12'))
+    # masked keys with the library's own random source (world channel: keys are re-randomised before use and must
+    # still extract to the key; only its C10 verdicts count here)
+    for be, sh in [('asm', (4, 2, 4)), ('c32', (3, 3, 3)), ('c64', (2, 1, 2))]:
+        exe = world_exe('channel', be, sh, 'rel')
+        o.add(D.run_batch(exe, 6000 if tier == 'quick' else 60000, tier, seed, label='channel@%s-%d%d%d' % (be, *sh), crash_prop='C12'))
     o.extra['distinct_states_measure'] = 'visited (operation, share count[, conversion target, size, round, in-place]) tuples per configuration'
     o.extra['configurations'] = ['%s-%d%d%d' % (be, *sh) for be, sh, n in cfgs]
     return o.finish()
